@@ -24,8 +24,14 @@
            the watcher later pops the child's ID from the parent's map.
     async  `send` puts the event into the recipient's queue; the recipient's run loop takes it over at
            the next point where the sending task really suspends (`drainAll`): the end of the macrostep,
-           and the `await`s inside `stop()`.  A run loop woken for a queued event processes that ONE event
-           even when the status has meanwhile become `stopped` (the loop tests the status before `get()`).
+           and the `await`s inside `stop()`.  A run loop woken for a queued event re-checks the status after
+           `get()`: when it has meanwhile become `stopped` the event is discarded and the loop ends.
+
+  The model follows the library WITH the repairs of F14 (every `stop()` drops the actor's systemIds), F50 (the
+  status re-check just described), F51 (a spawn under an id in use first stops and unlinks the previous
+  holder; a sync watcher pops only its own entry), F53 (the source-key fallback counts its matches) and F54
+  (the bare-key match looks only at the id segments after the parent's own id).  F52 (sync engine: a
+  non-blocking spawn returns before the child is started) is unchanged: `eager = false`.
 -/
 namespace XSM.Actors
 
@@ -76,7 +82,6 @@ structure Actor where
   busy : Bool := false                     -- sync: `_is_processing`
   inbox : List String := []
   received : List String := []
-  late : List String := []                 -- received after the stop notification
   kids : List (String × Nat) := []         -- `_actors`
   sources : List (String × String) := []   -- `_actor_sources`
   sends : List (String × Nat) := []        -- `_scheduled_sends`: send id -> timer
@@ -149,15 +154,16 @@ def mapIdxFrom (f : Nat → α → α) : Nat → List α → List α
   | i, a :: r => f i a :: mapIdxFrom f (i + 1) r
 
 /-- async: what the run loop of actor `u` does when the current task really suspends: a running actor
-    takes over everything queued; an actor whose status is already `stopped` but whose loop was woken
-    for a queued event processes that ONE event and leaves the loop -/
+    takes over everything queued; an actor whose status is no longer `running` but whose loop was woken
+    for a queued event takes that event off the queue, DISCARDS it and leaves the loop (the status
+    re-check after `get()`); nothing is ever processed by an actor that is not running -/
 def drainActor (busy : Option Nat) (u : Nat) (a : Actor) : Actor :=
   if busy = some u ∨ a.alive = false then a
   else if a.status = .running then { a with received := a.received ++ a.inbox, inbox := [] }
   else
     match a.inbox with
     | [] => a
-    | e :: r => { a with received := a.received ++ [e], late := a.late ++ [e], inbox := r, alive := false }
+    | _ :: r => { a with inbox := r, alive := false }
 
 def drainAll (busy : Option Nat) (s : Sys) : Sys :=
   { s with actors := mapIdxFrom (drainActor busy) 0 s.actors }
@@ -167,13 +173,21 @@ def drainAll (busy : Option Nat) (s : Sys) : Sys :=
 inductive Res | found (u : Nat) | ambiguous | none
   deriving DecidableEq, Repr
 
-/-- children whose id has `spec` among its segments after the first -/
-def segMatches (kids : List (String × Nat)) (spec : String) : List Nat :=
-  (kids.filter (fun kv => ((segs kv.1).drop 1).contains spec)).map (·.2)
+/-- the segments of the child id `cid` that come AFTER the id `pid` of the parent holding it
+    (`actor_id[len(own_prefix):].split(":")`); an id that does not start with `pid:` (never produced by a
+    spawn) falls back to "every segment after the first" -/
+def ownSegsL (pid cid : List Char) : List (List Char) :=
+  if (pid ++ [':']).isPrefixOf cid then splitColonL (cid.drop (pid.length + 1)) else (splitColonL cid).drop 1
 
-/-- first recorded source key equal to `spec` whose actor id is still in the children map -/
-def sourceMatch (a : Actor) (spec : String) : Option Nat :=
-  (a.sources.filter (fun kv => kv.2 = spec)).findSome? (fun kv => dlookup kv.1 a.kids)
+def ownSegs (pid cid : String) : List String := (ownSegsL pid.toList cid.toList).map String.ofList
+
+/-- children (of the actor whose id is `pid`) whose id has `spec` among its own segments -/
+def segMatches (pid : String) (kids : List (String × Nat)) (spec : String) : List Nat :=
+  (kids.filter (fun kv => (ownSegs pid kv.1).contains spec)).map (·.2)
+
+/-- every child still in the children map whose recorded source key is `spec` -/
+def sourceMatches (a : Actor) (spec : String) : List Nat :=
+  (a.sources.filter (fun kv => kv.2 = spec)).filterMap (fun kv => dlookup kv.1 a.kids)
 
 def parentMatch (a : Actor) (spec : String) : Res :=
   if spec = "parent" ∨ spec = "#parent" then
@@ -189,13 +203,80 @@ def resolve (s : Sys) (p : Nat) (spec : String) : Res :=
     match dlookup spec (s.get p).kids with
     | some u => .found u
     | none =>
-      match segMatches (s.get p).kids spec with
+      match segMatches (s.get p).id (s.get p).kids spec with
       | [u] => .found u
       | _ :: _ :: _ => .ambiguous
       | [] =>
-        match sourceMatch (s.get p) spec with
-        | some u => .found u
-        | none => parentMatch (s.get p) spec
+        match sourceMatches (s.get p) spec with
+        | [u] => .found u
+        | _ :: _ :: _ => .ambiguous
+        | [] => parentMatch (s.get p) spec
+
+/-! ### stop -/
+
+def killTimer (s : Sys) (i : Nat) : Sys :=
+  { s with timers := modifyAt (fun t => { t with live := false }) i s.timers }
+
+/-- every pending delayed send of `x` is cancelled (`task_manager.cancel_all` / the cancel flags) and,
+    in the async engine, the managing tasks of its invoked machines -/
+def killTasks (s : Sys) (x : Nat) : Sys :=
+  { s with timers := s.timers.map (fun t => if t.owner = x then { t with live := false } else t),
+           watches := s.watches.map (fun w => if w.parent = x ∧ w.invoke then { w with live := false } else w) }
+
+def hasLiveTasks (s : Sys) (x : Nat) : Bool :=
+  s.timers.any (fun t => t.owner = x && t.live) || s.watches.any (fun w => w.parent = x && w.invoke && w.live)
+
+/-- async `stop()`: `await self.task_manager.cancel_all()` really suspends only if there are live tasks -/
+def stopTasks (busy : Option Nat) (s : Sys) (x : Nat) : Sys :=
+  if hasLiveTasks s x then drainAll busy (killTasks s x) else s
+
+/-- async `stop()`: cancel the run loop and wait for it (everybody else's loop runs meanwhile) -/
+def stopLoop (busy : Option Nat) (s : Sys) (x : Nat) : Sys :=
+  if (s.get x).alive then drainAll busy (s.upd x (fun a => { a with alive := false })) else s
+
+/-- what `stop()` does after the children have been stopped and the map cleared -/
+def stopTail (busy : Option Nat) (s : Sys) (x : Nat) : Sys :=
+  match s.flavor with
+  | .sync => killTasks (s.upd x (fun a => { a with sends := [] })) x
+  | .async => stopLoop busy (stopTasks busy s x) x
+
+def markStopped (s : Sys) (x : Nat) : Sys := s.upd x (fun a => { a with status := .stopped })
+
+/-- every systemId of `x` is dropped from the registry (`_unregister_from_system`) -/
+def unregister (s : Sys) (x : Nat) : Sys := { s with registry := s.registry.filter (fun kv => kv.2 ≠ x) }
+
+def clearKids (s : Sys) (x : Nat) : Sys := s.upd x (fun a => { a with kids := [] })
+
+/-- `stop()` of actor `x`: `status = "stopped"`, its systemIds leave the registry, then the children are
+    stopped, the map is cleared, tasks and run loop end; the fuel is a bound on the depth of the tree
+    (`Sys.n` always suffices) -/
+def stopA (busy : Option Nat) : Nat → Sys → Nat → Sys
+  | 0, s, _ => s
+  | fuel + 1, s, x =>
+    if (s.get x).status = .running then
+      stopTail busy (clearKids ((s.get x).kids.foldl (fun acc kv => stopA busy fuel acc kv.2)
+        (unregister (markStopped s x) x)) x) x
+    else s
+
+def stop (busy : Option Nat) (s : Sys) (x : Nat) : Sys := stopA busy s.actors.length s x
+
+/-- is `x` the actor `p` itself or one of its ancestors? (fuel = number of actors) -/
+def isAncestorOrSelf (s : Sys) (x : Nat) : Nat → Nat → Bool
+  | 0, p => x = p
+  | f + 1, p => x = p || (match (s.get p).parent with | some q => isAncestorOrSelf s x f q | none => false)
+
+/-- `del self._actors[actor_id]; self._actor_sources.pop(actor_id)` for the first entry holding `x` -/
+def unlinkChild (s : Sys) (p x : Nat) : Sys :=
+  match (s.get p).kids.find? (fun kv => kv.2 = x) with
+  | some kv => s.upd p (fun a => { a with kids := derase kv.1 a.kids, sources := derase kv.1 a.sources })
+  | none => s
+
+def markOos (s : Sys) (b : Bool) : Sys := if b then { s with oos := true } else s
+
+/-- `_stop_child_actor` once the target has resolved to `x` (it unregisters `x` itself, also when `x` is
+    not running and its `stop()` is a no-op) -/
+def stopChildTo (busy : Option Nat) (s : Sys) (p x : Nat) : Sys :=
+  stop busy (markOos (unregister (unlinkChild s p x) x) (isAncestorOrSelf s x s.actors.length p)) x
 
 /-! ### spawn -/
 
@@ -238,7 +319,15 @@ def freshAfter (s : Sys) (eid : Option String) : Nat :=
   | some _ => s.fresh
   | none => s.fresh + 1
 
-/-- everything `_spawn_actor` does except the watcher thread of a non-blocking sync spawn -/
+def popKid (s : Sys) (p : Nat) (cid : String) : Sys := s.upd p (fun a => { a with kids := derase cid a.kids })
+
+/-- an id that is still in use: `previous = self._actors.pop(actor_id); previous.stop()` -/
+def evict (busy : Option Nat) (s : Sys) (p : Nat) (cid : String) : Sys :=
+  match dlookup cid (s.get p).kids with
+  | some old => stop busy (popKid s p cid) old
+  | none => s
+
+/-- everything `_spawn_actor` does once the id is free, except the watcher thread of a non-blocking sync spawn -/
 def spawnCore (s : Sys) (p : Nat) (key : String) (eid sid : Option String) (blocking : Bool) : Sys :=
   linkChild
     (register
@@ -246,13 +335,18 @@ def spawnCore (s : Sys) (p : Nat) (key : String) (eid sid : Option String) (bloc
       sid s.actors.length)
     p (mkId (s.get p).id key eid s.fresh) key s.actors.length
 
-/-- `_spawn_actor` (the action `spawn_<key>` / `spawn_blocking_<key>` and what `spawnChild` builds) -/
-def spawn (s : Sys) (p : Nat) (key : String) (eid sid : Option String) (blocking : Bool) : Sys :=
+/-- `_spawn_actor` on a free id -/
+def spawnFresh (s : Sys) (p : Nat) (key : String) (eid sid : Option String) (blocking : Bool) : Sys :=
   match s.flavor, blocking with
   | .sync, false =>
     addWatch (spawnCore s p key eid sid blocking)
       { parent := p, cid := mkId (s.get p).id key eid s.fresh, child := s.actors.length, invoke := false, live := true }
   | _, _ => spawnCore s p key eid sid blocking
+
+/-- `_spawn_actor` (the action `spawn_<key>` / `spawn_blocking_<key>` and what `spawnChild` builds): the
+    previous holder of the id, if any, is stopped and unlinked first -/
+def spawn (busy : Option Nat) (s : Sys) (p : Nat) (key : String) (eid sid : Option String) (blocking : Bool) : Sys :=
+  spawnFresh (evict busy s p (mkId (s.get p).id key eid s.fresh)) p key eid sid blocking
 
 /-- async `_spawn_and_manage_actor`: auto id, children map only (no source key, no systemId) -/
 def spawnInvokeAsync (s : Sys) (p : Nat) (key : String) : Sys :=
@@ -260,68 +354,6 @@ def spawnInvokeAsync (s : Sys) (p : Nat) (key : String) : Sys :=
     ((addActor s (newActor s p (mkId (s.get p).id key none s.fresh) key true) (s.fresh + 1)).upd p
       (fun a => { a with kids := dinsert (mkId (s.get p).id key none s.fresh) s.actors.length a.kids }))
     { parent := p, cid := mkId (s.get p).id key none s.fresh, child := s.actors.length, invoke := true, live := true }
-
-/-! ### stop -/
-
-def killTimer (s : Sys) (i : Nat) : Sys :=
-  { s with timers := modifyAt (fun t => { t with live := false }) i s.timers }
-
-/-- every pending delayed send of `x` is cancelled (`task_manager.cancel_all` / the cancel flags) and,
-    in the async engine, the managing tasks of its invoked machines -/
-def killTasks (s : Sys) (x : Nat) : Sys :=
-  { s with timers := s.timers.map (fun t => if t.owner = x then { t with live := false } else t),
-           watches := s.watches.map (fun w => if w.parent = x ∧ w.invoke then { w with live := false } else w) }
-
-def hasLiveTasks (s : Sys) (x : Nat) : Bool :=
-  s.timers.any (fun t => t.owner = x && t.live) || s.watches.any (fun w => w.parent = x && w.invoke && w.live)
-
-/-- async `stop()`: `await self.task_manager.cancel_all()` really suspends only if there are live tasks -/
-def stopTasks (busy : Option Nat) (s : Sys) (x : Nat) : Sys :=
-  if hasLiveTasks s x then drainAll busy (killTasks s x) else s
-
-/-- async `stop()`: cancel the run loop and wait for it (everybody else's loop runs meanwhile) -/
-def stopLoop (busy : Option Nat) (s : Sys) (x : Nat) : Sys :=
-  if (s.get x).alive then drainAll busy (s.upd x (fun a => { a with alive := false })) else s
-
-/-- what `stop()` does after the children have been stopped and the map cleared -/
-def stopTail (busy : Option Nat) (s : Sys) (x : Nat) : Sys :=
-  match s.flavor with
-  | .sync => killTasks (s.upd x (fun a => { a with sends := [] })) x
-  | .async => stopLoop busy (stopTasks busy s x) x
-
-def markStopped (s : Sys) (x : Nat) : Sys := s.upd x (fun a => { a with status := .stopped })
-
-def clearKids (s : Sys) (x : Nat) : Sys := s.upd x (fun a => { a with kids := [] })
-
-/-- `stop()` of actor `x`; the fuel is a bound on the depth of the tree (`Sys.n` always suffices) -/
-def stopA (busy : Option Nat) : Nat → Sys → Nat → Sys
-  | 0, s, _ => s
-  | fuel + 1, s, x =>
-    if (s.get x).status = .running then
-      stopTail busy (clearKids ((s.get x).kids.foldl (fun acc kv => stopA busy fuel acc kv.2) (markStopped s x)) x) x
-    else s
-
-def stop (busy : Option Nat) (s : Sys) (x : Nat) : Sys := stopA busy s.actors.length s x
-
-/-- is `x` the actor `p` itself or one of its ancestors? (fuel = number of actors) -/
-def isAncestorOrSelf (s : Sys) (x : Nat) : Nat → Nat → Bool
-  | 0, p => x = p
-  | f + 1, p => x = p || (match (s.get p).parent with | some q => isAncestorOrSelf s x f q | none => false)
-
-/-- `del self._actors[actor_id]; self._actor_sources.pop(actor_id)` for the first entry holding `x` -/
-def unlinkChild (s : Sys) (p x : Nat) : Sys :=
-  match (s.get p).kids.find? (fun kv => kv.2 = x) with
-  | some kv => s.upd p (fun a => { a with kids := derase kv.1 a.kids, sources := derase kv.1 a.sources })
-  | none => s
-
-/-- every systemId of `x` is dropped from the registry -/
-def unregister (s : Sys) (x : Nat) : Sys := { s with registry := s.registry.filter (fun kv => kv.2 ≠ x) }
-
-def markOos (s : Sys) (b : Bool) : Sys := if b then { s with oos := true } else s
-
-/-- `_stop_child_actor` once the target has resolved to `x` -/
-def stopChildTo (busy : Option Nat) (s : Sys) (p x : Nat) : Sys :=
-  stop busy (markOos (unregister (unlinkChild s p x) x) (isAncestorOrSelf s x s.actors.length p)) x
 
 /-! ### delayed sends -/
 
@@ -363,7 +395,7 @@ inductive Action
 
 /-- one action of actor `p` while it handles the event `cur` -/
 def runAction (busy : Option Nat) (cur : String) (p : Nat) (s : Sys) : Action → Sys
-  | .spawn key eid sid blocking => spawn s p key eid sid blocking
+  | .spawn key eid sid blocking => spawn busy s p key eid sid blocking
   | .sendTo target ev delay sid =>
     match resolve s p target with
     | .found t => deliver s p t ev delay sid
@@ -445,15 +477,13 @@ def invokeBody (p : Nat) (s1 : Sys) : Sys :=
     | none => setInv s1 p true
     | some src =>
       match s1.flavor with
-      | .sync => spawn (setInv s1 p true) p src (some "iv") none false
+      | .sync => spawn none (setInv s1 p true) p src (some "iv") none false
       | .async => spawnInvokeAsync (setInv s1 p true) p src
 
 def goInv (s : Sys) (p : Nat) : Sys := handle s p "GOINV" (fun _ s1 => invokeBody p s1)
 
 def killWatch (s : Sys) (i : Nat) : Sys :=
   { s with watches := modifyAt (fun w => { w with live := false }) i s.watches }
-
-def popKid (s : Sys) (p : Nat) (cid : String) : Sys := s.upd p (fun a => { a with kids := derase cid a.kids })
 
 /-- async: leaving the invoking state cancels the managing task, which stops the child and pops it -/
 def leaveWatch (busy : Option Nat) (p : Nat) (s : Sys) (iw : Nat × Watch) : Sys :=
@@ -490,10 +520,15 @@ def fireTimer (s : Sys) (i : Nat) : Sys :=
 
 def notifyDone (s : Sys) (w : Watch) : Sys := if w.invoke then deliverNow s w.parent "done.invoke.iv" else s
 
+/-- sync watcher thread: `if self._actors.get(actor_id) is child: self._actors.pop(actor_id)` (the id may
+    meanwhile name a newer actor); the async managing task of an invoke (auto id) pops by id -/
+def popOwnKid (s : Sys) (w : Watch) : Sys :=
+  if w.invoke = true ∨ dlookup w.cid (s.get w.parent).kids = some w.child then popKid s w.parent w.cid else s
+
 /-- a watcher notices that its child no longer runs -/
 def runWatch (s : Sys) (iw : Nat × Watch) : Sys :=
   if iw.2.live ∧ (s.get iw.2.child).status ≠ .running then
-    popKid (notifyDone (killWatch s iw.1) iw.2) iw.2.parent iw.2.cid
+    popOwnKid (notifyDone (killWatch s iw.1) iw.2) iw.2
   else s
 
 def runWatches (s : Sys) : Sys := ((List.range s.watches.length).zip s.watches).foldl runWatch s
